@@ -46,6 +46,25 @@ def run_property(prop: str, tier: str, seed: int, only_rule: str | None = None) 
                 traceback.print_exc()
     for a in getattr(mod, "ASSUMPTIONS", []):
         ctx.assume(a)
+    if only_rule:
+        ctx.partial = True      # a single-rule run (replay / --rule) never overwrites the property's evidence file
+    if tier == "thorough" and not only_rule and not os.environ.get("CIJSA_NO_SELFTEST"):
+        # self-validation of the checker: every registered mutant of the current tree must be reported,
+        # every registered behaviour-preserving rewrite must stay silent (scratch copies, removed at once)
+        if ctx.violations or ctx.errors:
+            ctx.extra["self_validation"] = "skipped: the base tree already violates or could not be analysed"
+        else:
+            from . import selftest
+            os.environ["CIJSA_NO_SELFTEST"] = "1"
+            n, bad, details = selftest.run(prop, verbose=False, collect=True)
+            ctx.extra["self_validation"] = {"variants": n, "wrong": bad, "mutants": sum(1 for d in details if d[1] == "violation"),
+                                            "equivalents": sum(1 for d in details if d[1] == "silent"),
+                                            "wrong_variants": [d[0] for d in details if d[2] != "ok"]}
+            print(f"   self-validation: {n} variants ({ctx.extra['self_validation']['mutants']} mutants, "
+                  f"{ctx.extra['self_validation']['equivalents']} equivalents), {bad} judged wrongly")
+            if bad:
+                ctx.begin_rule("self-validation", "registered mutants are reported and registered equivalents stay silent")
+                ctx.error(f"self-validation failed for variants {ctx.extra['self_validation']['wrong_variants']}")
     kw = {}
     if getattr(mod, "LEVEL", "other") == "proof":
         kw = dict(trusted_base=getattr(mod, "TRUSTED_BASE", []), checker_cmd=f"./check {prop} --tier {tier}")
